@@ -32,6 +32,7 @@ type fop struct {
 
 type fakeCase struct {
 	InitMS, MaxMul, Cap int
+	MaxExtra            int
 	Ops                 []fop
 }
 
@@ -47,14 +48,14 @@ func (c fakeCase) String() string {
 			p = append(p, fmt.Sprintf("%s(%d,%s)", o.Kind, o.N, o.Step))
 		}
 	}
-	return fmt.Sprintf("coalescing.fake{init=%dms max=%dms cap=%d ops=[%s]}", c.InitMS, c.InitMS*c.MaxMul, c.Cap, strings.Join(p, " "))
+	return fmt.Sprintf("coalescing.fake{init=%dms max=%dms cap=%d ops=[%s]}", c.InitMS, c.InitMS*c.MaxMul+c.MaxExtra, c.Cap, strings.Join(p, " "))
 }
 
 func runFake(t *testing.T, c fakeCase) (raced bool, err error) {
 	var errs vk.Errs
 	berr := vk.Bubble(t, c.String(), func() {
 		init := time.Duration(c.InitMS) * time.Millisecond
-		max := init * time.Duration(c.MaxMul)
+		max := init*time.Duration(c.MaxMul) + time.Duration(c.MaxExtra)*time.Millisecond
 		opts := ratelimiting.OptionsCoalescing{InitialDelay: &init, MaxDelay: &max}
 		if c.Cap > 0 {
 			cp := c.Cap
@@ -222,6 +223,7 @@ func TestCoalescingFakeClock(t *testing.T) {
 	sec := vk.Sec("CoalescingFakeClock")
 	vk.Check(t, 40000, 8000000, func(rt *rapid.T) {
 		c := fakeCase{InitMS: rapid.SampledFrom([]int{2, 10, 100}).Draw(rt, "initMS"), MaxMul: rapid.SampledFrom([]int{1, 2, 4, 8}).Draw(rt, "maxMul"), Cap: rapid.SampledFrom([]int{0, 0, 2, 3}).Draw(rt, "cap")}
+		c.MaxExtra = genMaxExtra(rt, c.InitMS)
 		n := rapid.IntRange(1, 16).Draw(rt, "nops")
 		for i := 0; i < n; i++ {
 			switch k := rapid.IntRange(0, 9).Draw(rt, "kind"); {
